@@ -47,7 +47,7 @@ func c15Items(c *Ctx) []pgen.FItem {
 		n++
 		items = append(items, pgen.PlumbItem(fmt.Sprintf("F%03d", n), kind, s))
 	}
-	modes := []string{"named", "blank", "unnamed", "reserved"}
+	modes := []string{"named", "blank", "unnamed", "reserved", "paramlike"}
 	// systematic: every arity 2..5, every result count 0..3, every naming mode; first two parameter
 	// types identical (a swap is invisible to the type checker) or different
 	for np := 2; np <= 5; np++ {
